@@ -199,7 +199,7 @@ pub fn run_for(prop: &str, root: &Path, seed: u64, scale: f64) -> Result<MiriRep
             miri_p_world(root, crate::world_by_name("stream"), seed, n(100), 16, &mut report);
         }
         "C13" => miri_threads(root, seed, n(64), 8, &mut report),
-        "C10" => miri_chunks(root, seed, n(48), 8, &mut report),
+        "C10" => miri_chunks(root, seed, n(24), 8, &mut report),
         _ => {}
     }
     Ok(report)
